@@ -17,6 +17,7 @@ def labelOf (j : Json) : R Label := do
   | .arr #[.str "crash"] => pure .crash
   | .arr #[.str "adv", n] => do pure (.adv (← asNat n))
   | .arr #[.str "fault", n] => do pure (.fault (← asNat n))
+  | .arr #[.str "cancel", n] => do pure (.cancel (← asNat n))
   | _ => throw "bad label"
 
 /-- the name of the step a job at this pc is about to execute (`n` = number of state components) -/
@@ -35,9 +36,11 @@ def pcName (n : Nat) : Pc → String
   | .unlock .ok => "unlock-ok"
   | .unlock .raised => "unlock-raised"
   | .unlock .cleanupRaised => "unlock-cleanup-raised"
+  | .unlock .cancelled => "unlock-cancelled"
   | .done .ok => "done-ok"
   | .done .raised => "done-raised"
   | .done .cleanupRaised => "done-cleanup-raised"
+  | .done .cancelled => "done-cancelled"
 
 def jnat (n : Nat) : Json := Json.num (JsonNumber.fromNat n)
 def jnats (l : List Nat) : Json := Json.arr (l.map jnat).toArray
@@ -52,6 +55,7 @@ def stepName (s : Sys) : Label → String
   | .crash => "crash"
   | .adv j => s!"{j}:{pcName s.mem.length (s.jobs j)}"
   | .fault j => s!"{j}:{pcName s.mem.length (s.jobs j)}!"
+  | .cancel j => s!"{j}:cancel"
 
 /-- run, collecting step names; stops at the first label that is not enabled -/
 def runTrace (locked slocked : Bool) (ser : Vec → Content) :
